@@ -32,6 +32,10 @@ pub const SNIPPETS: &[(&str, &str, bool)] = &[
   ("", "/* block */ ok$();", false),
   ("no-debugger", "foo$(\n  1,\n  2); debugger;", false),
   ("no-debugger", "`a\nb`; debugger;", false),
+  // two findings of one rule with the same start (the inner one is the leftmost operand of the outer one)
+  ("eqeqeq", "a$ == b$ == c$;", false),
+  ("eqeqeq", "a$ != b$ == (c$ == d$);", false),
+  ("no-explicit-any", "let y$ = (z$ as any) as any;", true),
 ];
 
 pub const BASE_CODES: &[&str] = &[
@@ -200,7 +204,7 @@ pub fn directive_file(rng: &mut Rng, o: &DirGenOpts) -> DirFile {
   } else {
     "\n"
   };
-  if rng.chance(1, 8) {
+  if rng.chance(1, 4) {
     feats.push("shebang");
     b.same(&format!("#!/usr/bin/env deno{}", nl));
   }
@@ -253,7 +257,30 @@ pub fn directive_file(rng: &mut Rng, o: &DirGenOpts) -> DirFile {
   }
   // the first statement is never empty, so the leading comments above are attached to a statement
   n += 1;
-  b.same(&format!("ok{}();{}", n, nl));
+  // …of any kind: a script statement, or a module item (the leading comments then hang on an import / export)
+  match rng.below(8) {
+    0 => {
+      feats.push("first-item=import");
+      b.same(&format!("import * as imp{} from \"./m.ts\";{}", n, nl));
+    }
+    1 => {
+      feats.push("first-item=export-decl");
+      b.same(&format!("export const exp{} = 1;{}", n, nl));
+    }
+    2 => {
+      feats.push("first-item=export-empty");
+      b.same(&format!("export {{}};{}", nl));
+    }
+    3 => {
+      feats.push("first-item=directive-prologue");
+      b.same(&format!("\"use strict\";{}", nl));
+    }
+    4 => {
+      feats.push("first-item=class");
+      b.same(&format!("class Kl{} {{}}{}", n, nl));
+    }
+    _ => b.same(&format!("ok{}();{}", n, nl)),
+  }
   let stmts = rng.range(0, 11);
   for _ in 0..stmts {
     let r = rng.below(10);
